@@ -954,6 +954,17 @@ fn report_duplicate_definitions(
             _ => {}
         }
     }
+    // `Name::method(x)` looks the method up under a type and under a trait of that name: with both
+    // in one package the path form and the dot form of a call could run different code.
+    for name in traits.iter() {
+        if types.contains(name) {
+            diagnostics.push(Diagnostic::new(
+                Stage::Typer,
+                Severity::Error,
+                format!("{} is defined both as a type and as a trait", name),
+            ));
+        }
+    }
 }
 
 pub fn collect_typedefs(
